@@ -80,7 +80,7 @@ func UBJScalars() []UBJScalar {
 	for _, f := range Float64Bits {
 		out = append(out, UBJScalar{append([]byte{'D'}, be(8, f)...), "D"})
 	}
-	for _, c := range []byte{'a', 0, 0x7f, 0xff, 'N', '[', ']'} {
+	for _, c := range []byte{'a', 0, 0x7f, 'N', '[', ']'} { // (a char is an ASCII character: 0..127)
 		out = append(out, UBJScalar{[]byte{'C', c}, "C"})
 	}
 	for _, h := range []string{"0", "18446744073709551615", "-1.5e+400", "3.14159265358979323846264338327950288419716939937510", ""} {
